@@ -150,10 +150,16 @@ pub fn run(ctx: &Ctx) -> PropResult {
         // local year must stay within 0001..=9999
         let off = match rng.below(4) {
             0 => 0,
-            1 => *rng.pick(&[60, -60, 1439 * 60, -1439 * 60, 3600, -3600, 5 * 3600 + 1800, -(9 * 3600 + 1800), 12 * 3600 + 45 * 60]),
+            1 => *rng.pick(&[60, -60, 1439 * 60, -1439 * 60, 3600, -3600, 5 * 3600 + 1800, -(9 * 3600 + 1800), 12 * 3600 + 45 * 60, 1438 * 60, 1430 * 60, -1430 * 60, 1400 * 60]),
             _ => rng.range_i64(-1439, 1439) as i32 * 60,
         };
-        let local = match rng.below(6) {
+        let local = match rng.below(8) {
+            // UTC instants at 2^k units from 0001-01-01 / 1970-01-01 (2262-04-11 = 2^63 ns after 1970, 0293-04-11 =
+            // 2^63 ns after 0001 …), large offsets favoured: where a 64-bit fast path for "instant + offset" ends
+            6 | 7 => {
+                let u = crate::model::magic::gen_instant_at(rng, lo, hi) - if rng.chance(1, 2) { rng.range_i128(0, D) } else { 0 };
+                u + off as i128 * NS
+            }
             0 => lo + rng.range_i128(0, 2 * D),
             1 => hi - rng.range_i128(0, 2 * D),
             2 => {
